@@ -944,7 +944,9 @@ class ProcessSyncGroup(SyncGroup, SimulatedEBPF):
             loop.add_reader(fd, future.set_result, None)
             try:
                 await future
-            except CancelledError as error:
+            except CancelledError as cancelled:
+                # 'as error' would unbind the name when the clause ends
+                error = cancelled
                 self.runningValue.value = False
             else:
                 if error is None:
